@@ -24,10 +24,13 @@ GcsVerdict(e) ==
      ELSE IF e.npb # cs \o <<e.p>> \o e.bytes THEN V("np-prefixed-serialisation", Cut(cs), Cut(e.npb))
      ELSE LET bad == {j \in 1..Len(e.queries) :
                         LET q == e.queries[j]  x == qres(q) IN
-                        q.single # x.single \/ q.any # x.any \/ q.zip # x.any \/ q.hash # x.any}
+                        q.single # x.single \/ q.any # x.any \/ q.zip # x.any \/ q.hash # x.any
+                        \/ ("hasheach" \in DOMAIN q /\ Len(q.hasheach) > 0 /\ (q.hasheach # x.single \/ q.zipeach # x.single))}
           IN IF bad # {} THEN
                LET j == CHOOSE x \in bad : TRUE  q == e.queries[j]  x == qres(q) IN
                IF q.single # x.single THEN V("single-item-match", x.single, q.single)
+               ELSE IF "hasheach" \in DOMAIN q /\ Len(q.hasheach) > 0 /\ (q.hasheach # x.single \/ q.zipeach # x.single)
+                 THEN V("strategies-disagree-on-a-single-item", "as Match", "HashMatchAny / ZipMatchAny of that item alone")
                ELSE V("any-of-strategies", [expected |-> x.any], [any |-> q.any, zip |-> q.zip, hash |-> q.hash])
              ELSE LET rb == {j \in 1..Len(e.rebuilt) :
                                LET r == e.rebuilt[j] IN r.n # e.n \/ r.p # e.p \/ r.bytes # e.bytes \/ r.answers # e.answers}
